@@ -21,15 +21,14 @@ def observe(tf, root, pl, via_cli, out):
         else:
             from torrentfile.torrent import TorrentFile
             TorrentFile(path=root, piece_length=pl, progress=0, outfile=out).write()
-    meta = refspec.strict_decode(open(out, "rb").read()) if False else None
     raw = open(out, "rb").read()
-    meta = dict(refspec._ldec(raw, 0)[0])
-    info = dict(meta[b"info"])
+    meta = refspec.lenient_decode(raw)
+    info = meta[b"info"]
     obs = {"piece length": info.get(b"piece length"), "pieces": info.get(b"pieces"),
            "length": info.get(b"length"), "name": info.get(b"name")}
     if b"files" in info:
-        obs["files"] = [(tuple(dict(e)[b"path"]), dict(e)[b"length"],
-                         dict(e).get(b"attr")) for e in info[b"files"]]
+        obs["files"] = [(tuple(e[b"path"]), e[b"length"], e.get(b"attr"))
+                        for e in info[b"files"]]
     else:
         obs["files"] = None
     return obs
